@@ -1008,18 +1008,53 @@ func (fx *FuncCtx) execLoop(pre *State, ld *loopDesc) Flow {
 			if !ok {
 				continue
 			}
+			// look through implications: P ==> forall(...)
+			var antecedents []ast.Expr
+			for {
+				id, isId := call.Fun.(*ast.Ident)
+				if isId && id.Name == "implies" && len(call.Args) == 2 {
+					inner, ok := call.Args[1].(*ast.CallExpr)
+					if !ok {
+						break
+					}
+					antecedents = append(antecedents, call.Args[0])
+					call = inner
+					continue
+				}
+				break
+			}
 			if id, ok := call.Fun.(*ast.Ident); !ok || id.Name != "forall" || len(call.Args) != 4 {
 				continue
 			}
-			for _, l := range lins {
+			wrap := func(q ast.Expr) ast.Expr {
+				for i := len(antecedents) - 1; i >= 0; i-- {
+					q = &ast.CallExpr{Fun: ast.NewIdent("implies"), Args: []ast.Expr{antecedents[i], q}}
+				}
+				return q
+			}
+			// counters: the linear variables of the loop and the iteration count itself
+			tlins := append([]linVar{}, lins...)
+			tlins = append(tlins, linVar{obj: nil})
+			for _, l := range tlins {
 				l := l
 				ei := ei
+				lname := "it"
+				if l.obj != nil {
+					lname = l.obj.Name()
+				}
+				getC := func(s *State, it Term) Term {
+					if l.obj == nil {
+						return it
+					}
+					c, _ := getInt(s, l.obj)
+					return c
+				}
 				mk := func(name string, lo, hi func(c Term, env *specEnv) ast.Expr) {
-					cands = append(cands, cand{name: fmt.Sprintf("ensures%d@%s:%s", ei+1, l.obj.Name(), name), slow: true, eval: func(s *State, it Term) Term {
-						c, _ := getInt(s, l.obj)
+					cands = append(cands, cand{name: fmt.Sprintf("ensures%d@%s:%s", ei+1, lname, name), slow: true, eval: func(s *State, it Term) Term {
+						c := getC(s, it)
 						env := &specEnv{fx: fx, cur: s, old: fx.entry, binds: map[string]sval{"__c": {c, nil}}, entryParams: true, pos: ld.node.Pos()}
 						q := &ast.CallExpr{Fun: call.Fun, Args: []ast.Expr{call.Args[0], lo(c, env), hi(c, env), call.Args[3]}}
-						return fx.specBool(env, q)
+						return fx.specBool(env, wrap(q))
 					}})
 				}
 				cIdent := ast.NewIdent("__c")
@@ -1029,11 +1064,11 @@ func (fx *FuncCtx) execLoop(pre *State, ld *loopDesc) Flow {
 					oi := oi
 					same := &ast.CallExpr{Fun: ast.NewIdent("same"), Args: []ast.Expr{ox, &ast.CallExpr{Fun: ast.NewIdent("old"), Args: []ast.Expr{ox}}}}
 					mkU := func(name string, lo, hi ast.Expr) {
-						cands = append(cands, cand{name: fmt.Sprintf("ensures%d@%s:unchanged%d-%s", ei+1, l.obj.Name(), oi, name), slow: true, eval: func(s *State, it Term) Term {
-							c, _ := getInt(s, l.obj)
+						cands = append(cands, cand{name: fmt.Sprintf("ensures%d@%s:unchanged%d-%s", ei+1, lname, oi, name), slow: true, eval: func(s *State, it Term) Term {
+							c := getC(s, it)
 							env := &specEnv{fx: fx, cur: s, old: fx.entry, binds: map[string]sval{"__c": {c, nil}}, entryParams: true, pos: ld.node.Pos()}
 							q := &ast.CallExpr{Fun: call.Fun, Args: []ast.Expr{call.Args[0], lo, hi, same}}
-							return fx.specBool(env, q)
+							return fx.specBool(env, wrap(q))
 						}})
 					}
 					mkU("suffix", cIdent, call.Args[2])
